@@ -300,7 +300,7 @@ func (e *Enc) typeInv(term string, t types.Type, depth int) {
 	}
 	if _, ok := t.Underlying().(*types.Slice); ok {
 		s := e.g().SortOf(t)
-		e.r.assume(fmt.Sprintf("(>= (%s_len %s) 0)", s, term))
+		e.r.assume(fmt.Sprintf("(and (>= (%s_len %s) 0) (<= (%s_len %s) 4611686018427387904))", s, term, s, term))
 		e.r.assume(fmt.Sprintf("(=> (%s_nil %s) (= (%s_len %s) 0))", s, term, s, term))
 		// element ranges for integer slices
 		if sl, ok := t.Underlying().(*types.Slice); ok {
